@@ -22,7 +22,7 @@ def consts(P, mode, kinds, MS, NS, DTS, rnd, export, withb, h1=True, rncu=('TF',
 
 
 SWEEP_INVS = ['SweepOK', 'FixedPointOK', 'EndPointConsistent', 'Export']
-TRANSFER_INVS = ['TauOK', 'CoarseDefectOK', 'DownUpOK', 'Export']
+TRANSFER_INVS = ['TauOK', 'CoarseDefectOK', 'DownUpOK', 'DownUpFOK', 'Export']
 
 
 def mc(wd, c, invs, workers=8, timeout=1500, simulate=None, seed=0):
@@ -143,6 +143,8 @@ def random_instance(rng, P, mode, kinds, maxM=3, maxn=2, h1=True):
             inst['G']['B'] = mat(nc, nc)
             inst['G']['c'] = z()
         inst['T'] = dict(Rc=Rc, Pc=mat(M, Mc), Rs=mat(nc, n), Ps=mat(n, nc))
+        # prolong_f: corrected right-hand sides are interpolated instead of re-evaluated
+        inst['finter'] = kind in ('impl', 'imex') and rng.random() < 0.4
     return inst
 
 
